@@ -12,7 +12,8 @@ META = {
                    "SequenceData's hamiltonian_type and level count (forwarded to a dispatching parameter or "
                    "tested with the other outcome raising); (c) create_impl never returns a non-DMRG driver "
                    "while solver==DMRG is possible and DMRGBackendImpl refuses noise first; (d) Pulser's "
-                   "NoiseTypes literal (read from the installed source) is covered by handled ∪ non-Lindbladian.",
+                   "NoiseTypes literal (read from the installed source) is covered by handled ∪ non-Lindbladian. "
+                   "(e) DISPATCH-reject: a table of required rejections (two bases in the samples, imaginary drive samples, false-positive readout with qutrits, fewer than two atoms, dim ∉ {2,3}, initial state with state-preparation errors) — each must be a raising path decided by its condition.",
     "not_decided": "that accepted sequences are emulated correctly (C01/C02); data-dependent rejections "
                    "inside Pulser",
     "trusted_base": ["CPython ast", "networkx reachability/dominators", "the table of discriminator chains in "
